@@ -261,7 +261,7 @@ func planC01(tier string, seed int64) (*Plan, error) {
 }
 
 func planC19(tier string, seed int64) (*Plan, error) {
-	p := &Plan{MustReach: []string{"done", "valid-utf8"}}
+	p := &Plan{MustReach: []string{"done", "valid-utf8", "folding-pair"}}
 	thorough := tier == "thorough"
 	nEsc, nURL, nRes, nLink, kHex, kDec, kEnt := 4, 3, 3, 2, 3, 4, 2
 	if thorough {
@@ -306,6 +306,13 @@ func planC19(tier string, seed int64) (*Plan, error) {
 	p.Jobs = append(p.Jobs, job("H_c19_linkref", "n", nLink+2, "alpha", "aA \t\xc3\x9f"))
 	p.Jobs = append(p.Jobs, job("H_c19_bytesfilter", "keys", 6, "base", 3))
 	p.Jobs = append(p.Jobs, job("H_c19_bytesfilter", "keys", 5, "base", 2, "klen", 2, "alpha", "a!"))
+	// case folding orbits: every rune of the BMP and of U+10000..U+1FFFF, one job per block of 256 code points
+	for base := 0; base < 0x20000; base += 256 {
+		if base >= 0xD800 && base < 0xE000 {
+			continue
+		}
+		p.Jobs = append(p.Jobs, job("H_c19_casefold", "base", base))
+	}
 	// operation histories over a growing pool of filters (Add / Extend with 0-2 keys / ExtendString)
 	p.Jobs = append(p.Jobs, job("H_c19_filter_hist", "k", 2))
 	p.Jobs = append(p.Jobs, job("H_c19_filter_hist", "k", 2, "klen", 2, "alpha", "a!"))
@@ -319,6 +326,7 @@ func planC19(tier string, seed int64) (*Plan, error) {
 		"URLEscape(false)": fmt.Sprintf("all byte strings of length 0..%d; length %d..%d over {%%,4,g,space,C3,A9,<}; %%XX triples with symbolic hex digits and 0..1 / 0..2 symbolic lower-case neighbours", nURL, nURL+1, nURL+2),
 		"resolvers":        fmt.Sprintf("all byte strings of length 0..%d; length %d over {&,#,x,1,;,\\,a,C3,A9}; &#x h{1..%d} ; (plus 8..17-digit references with a concrete prefix and two symbolic digits) and &# d{1..%d} ; with symbolic digits; & name{1..%d} ; with symbolic letters", nRes, nRes+2, kHex, kDec, kEnt),
 		"ToLinkReference":  fmt.Sprintf("all byte strings of length 0..%d plus length %d over {a,A,space,tab,C3,9F}; symbolic per-letter case flips and whitespace-run rewriting", nLink, nLink+2),
+		"case folding":     "every code point U+0000..U+1FFFF except surrogates (symbolic rune, one job per block of 256): a label holding the rune and the label holding the next member of its simple case folding orbit (Go's unicode.SimpleFold, interpreted) between symbolic ASCII letters normalise to the same string",
 		"BytesFilter":      "histories NewBytesFilter; Add×base; Extend; Extend; Add with 5-6 symbolic keys over a 5-byte alphabet in which four bytes share a hash bucket (1-byte keys), and 2-byte keys over {a,!}; operation histories of 2 (thorough 3) steps over a growing pool of filters, each step a solver-enumerated choice among Add(key) on any filter and deriving a new filter from any filter by Extend() / Extend(k) / Extend(k1,k2) / ExtendString(\"\") / ExtendString(\"k1,k2\"), every filter compared with its set model on every key after every step (1-byte keys over {a,!,A1,b}, 2-byte keys over {a,!}, 4-byte keys over {a,b}, and a pool started with NewBytesFilterString)",
 		"outside":          "longer inputs; histories longer than 6 operations",
 	}
@@ -379,7 +387,15 @@ func planC18(tier string, seed int64) (*Plan, error) {
 		p.Jobs = append(p.Jobs, job("H_c18_segment", "n", 3))
 		p.Jobs = append(p.Jobs, job("H_c18_segment", "n", 4, "alpha", "a \t"))
 	}
+	// block reader over line segments that stop before their newline (gaps between segments)
+	p.Jobs = append(p.Jobs, job("H_c18_block", "n", 3, "k", 1, "cut", 1, "alpha", "a \n"))
+	p.Jobs = append(p.Jobs, job("H_c18_block", "n", 4, "k", 1, "cut", 1, "alpha", "a\n"))
+	if tier == "thorough" {
+		p.Jobs = append(p.Jobs, job("H_c18_block", "n", 3, "k", 1, "cut", 1))
+		p.Jobs = append(p.Jobs, job("H_c18_block", "n", 2, "k", 2, "cut", 1))
+	}
 	p.Bounds = map[string]interface{}{
+		"trimmed":   "block reader over segments that stop one byte before their newline (a gap in front of the next segment): n=3 over {a, space, LF} and n=4 over {a, LF}, every single call (thorough: n=3 all bytes; n=2, two calls)",
 		"sources":   "every source of the stated length over {a, space, TAB, LF, CR, C3, A9, [, ], `, \\} (smaller alphabets for the longer lengths, listed per job in evidence samples)",
 		"histories": "every sequence of k calls among Advance(n<=remaining), AdvanceLine, Position/SetPosition(recorded), SetPadding(0..3), SkipSpaces, ReadRune, FindClosure('[',']', all 8 option sets, no Advance), AdvanceAndSetPadding, SkipBlankLines, FindClosure(Advance)+PrecendingCharacter; quick: reader (n<=3,k=2), (n=2,k=3 over 5 bytes), (n=4,k=2 over 3 bytes); block reader (n<=2,k=2), (n=3,k=1), (n=3,k=2 over 3 bytes); thorough: reader (3,3),(5,2 small); block (3,2),(5,2 small)",
 		"block":     "BlockReader line lists: every suffix of the source's physical lines, first two lines with optional 1-byte skip and padding 0..2",
